@@ -21,6 +21,7 @@ import numpy as np
 
 from spatialmath import SE3, SO3, SE2, SO2, Quaternion, UnitQuaternion, Twist3, Twist2  # noqa: E402
 from spatialmath.spatialvector import SpatialVelocity, SpatialAcceleration, SpatialForce, SpatialMomentum  # noqa: E402
+from spatialmath import Plucker  # noqa: E402
 
 U = 0.001   # angle per tag for the rotation-valued classes
 
@@ -74,7 +75,9 @@ def delegating_classes():
     cs = (SpatialVelocity, SpatialAcceleration, SpatialForce, SpatialMomentum)
     return [K(c.__name__, c, (lambda c: lambda t: c([t, 0, 0, 0, 0, 0]))(c), lambda a: a[0], 6, False,
               (lambda d: lambda: d([1, 2, 3, 4, 5, 6]))(cs[(i + 1) % 4]), lambda: Twist3())
-            for i, c in enumerate(cs)]
+            for i, c in enumerate(cs)] + [
+        # Plucker: its own append (geom3d.py:332-347, repaired by the fix recorded in known_findings.json) and __getitem__ = cls(data[i])
+        K('Plucker', Plucker, lambda t: Plucker([t, 0, 0, 0, 0, 1]), lambda a: a[0], 6, False, lambda: Twist3(), lambda: SE3())]
 
 
 def classes():
